@@ -26,11 +26,14 @@ pub struct FakeBus {
     pub release_calls: Vec<String>,
     pub name_owner: BTreeMap<String, Option<String>>,
     pub other_calls: Vec<String>,
+    /// the next AddMatch is refused with this many to go (a bus may refuse: LimitsExceeded)
+    pub reject_adds: u32,
+    pub rejected: Vec<String>,
 }
 
 impl FakeBus {
     pub fn new(peer: Peer) -> FakeBus {
-        FakeBus { peer, rules: BTreeMap::new(), add_twice: vec![], remove_unknown: vec![], request_replies: vec![], release_replies: vec![], request_calls: vec![], release_calls: vec![], name_owner: BTreeMap::new(), other_calls: vec![] }
+        FakeBus { peer, rules: BTreeMap::new(), add_twice: vec![], remove_unknown: vec![], request_replies: vec![], release_replies: vec![], request_calls: vec![], release_calls: vec![], name_owner: BTreeMap::new(), other_calls: vec![], reject_adds: 0, rejected: vec![] }
     }
 
     /// handle everything zbus wrote since last time
@@ -51,6 +54,11 @@ impl FakeBus {
                 _ => String::new(),
             };
             let reply = match member.as_str() {
+                "AddMatch" if self.reject_adds > 0 => {
+                    self.reject_adds -= 1;
+                    self.rejected.push(arg0.clone());
+                    self.peer.error(&m, "org.freedesktop.DBus.Error.LimitsExceeded", "too many match rules", Some(BUS))
+                }
                 "AddMatch" => {
                     let c = self.rules.entry(arg0.clone()).or_insert(0);
                     *c += 1;
@@ -310,7 +318,51 @@ pub fn c37_case(src: &mut Src, obs: &mut Obs) -> CaseResult {
     let mut history: Vec<String> = vec![];
     let mut shared_drop = false;
     for _ in 0..n {
-        match src.weighted(&[6, 2, 5, 2, 3]) {
+        match src.weighted(&[6, 2, 5, 2, 3, 2, 2]) {
+            5 => {
+                // two first subscribers of one rule at the same time: the second starts while the
+                // first still waits for the bus to answer its AddMatch
+                let r = src.below(SRULES.len());
+                let (c1, c2) = (conn.clone(), conn.clone());
+                let st = run_op(&mut sched, &mut sch, &mut bus, async move {
+                    let (a, b) = futures_util::future::join(zbus::MessageStream::for_match_rule(SRULES[r], &c1, None), zbus::MessageStream::for_match_rule(SRULES[r], &c2, None)).await;
+                    (a.map_err(|e| e.to_string()), b.map_err(|e| e.to_string()))
+                });
+                match st {
+                    Some((Ok(a), Ok(b))) => {
+                        live.push(H::Stream(r, a));
+                        live.push(H::Stream(r, b));
+                    }
+                    other => return Err(Failure::new(format!("creating two streams for {:?} at once failed: {:?}; history {history:?}", SRULES[r], other.map(|x| (x.0.err(), x.1.err()))))),
+                }
+                history.push(format!("two-at-once(rule{r})"));
+            }
+            6 => {
+                // the bus refuses the proxy's first AddMatch; the caller tries again on the same
+                // proxy, then lets the proxy go while the stream lives on
+                let c = conn.clone();
+                let wk = src.bool();
+                bus.reject_adds = 1;
+                let s = run_op(&mut sched, &mut sch, &mut bus, async move {
+                    let p: zbus::Proxy<'static> = zbus::proxy::Builder::new(&c).destination(if wk { "c37.Svc" } else { ":1.7" }).unwrap().path("/c37").unwrap().interface("c37.I").unwrap().cache_properties(zbus::proxy::CacheProperties::No).build().await.map_err(|e| e.to_string())?;
+                    let first = p.receive_signal("Changed").await.map(|_| ()).map_err(|e| e.to_string());
+                    let second = p.receive_signal("Changed").await.map_err(|e| e.to_string())?;
+                    drop(p);
+                    Ok::<_, String>((first, second))
+                });
+                bus.reject_adds = 0;
+                match s {
+                    Some(Ok((first, s))) => {
+                        if first.is_ok() && !bus.rejected.is_empty() {
+                            return Err(Failure::new(format!("receive_signal succeeded although the bus refused its AddMatch ({:?}); history {history:?}", bus.rejected)));
+                        }
+                        bus.rejected.clear();
+                        live.push(H::Signals(wk, s));
+                    }
+                    other => return Err(Failure::new(format!("creating a signal stream after a refused AddMatch failed: {:?}; history {history:?}", other.map(|x| x.err())))),
+                }
+                history.push(format!("signals-after-refusal(wk={wk})"));
+            }
             0 => {
                 let r = src.below(SRULES.len());
                 let c = conn.clone();
